@@ -1,3 +1,4 @@
+import Proofs.EcdsaInstNamed
 import Proofs.EcdsaInstToy
 import Proofs.EcdsaInstCurve
 import Proofs.EcdsaSign
@@ -166,5 +167,33 @@ theorem pubkey_eq_dG_on_curve (c : Affine.Crv) (C : Ctx p a b) (M : OnCurve.Matc
 example : ∃ C : Ctx 11 1 6, OnCurve.Matches OnCurve.toyCrv C := OnCurve.toy_matches
 
 end OnCurve
+
+/-! ### the named curves
+For each of the 16 named curves with cofactor 1 (rows of `Generated/Curves.lean`, re-extracted from the source on
+every run) the only hypotheses left are the SEC 2 / FIPS 186 / RFC 5639 facts **p prime, n prime, #E(𝔽_p) = n**
+(DESIGN §4); generator on the curve, reduced coordinates, Δ ≠ 0, h = 1 are computed by the kernel
+(`OnCurve.rowCheck_named`), `n • G = 0` is Lagrange, ⟨G⟩ is the whole group. -/
+section Named
+open GroupInterface
+
+theorem sign_eq_standard_named (row : Gen.CurveRow) (hrow : row ∈ [Gen.curve_NIST192p, Gen.curve_NIST224p, Gen.curve_NIST256p, Gen.curve_NIST384p,
+      Gen.curve_NIST521p, Gen.curve_SECP256k1, Gen.curve_BRAINPOOLP160r1, Gen.curve_BRAINPOOLP192r1,
+      Gen.curve_BRAINPOOLP224r1, Gen.curve_BRAINPOOLP256r1, Gen.curve_BRAINPOOLP320r1, Gen.curve_BRAINPOOLP384r1,
+      Gen.curve_BRAINPOOLP512r1, Gen.curve_SECP112r1, Gen.curve_SECP128r1, Gen.curve_SECP160r1])
+    [Fact row.p.Prime] (hnp : row.n.Prime)
+    (hcard : Nat.card (Jac.Grp ((row.a : ℤ) : ZMod row.p) ((row.b : ℤ) : ZMod row.p)) = row.n) :
+    ∃ C : Ctx row.p row.a row.b, C.n = row.n ∧
+      (∀ d e k : ℤ, 1 ≤ k ∧ k < row.n → ∃ x, OnCurve.xcOf (k • C.G) = some x ∧
+        sign (OnCurve.ops (OnCurve.crvOfRow row)) d e k =
+          (let r := x % (row.n : ℤ)
+           let s := invZ row.n k * (e + r * d) % (row.n : ℤ)
+           if r = 0 ∨ s = 0 then .error .rsZero else .ok (r, s))) ∧
+      (∀ d : ℤ, 1 ≤ d ∧ d < row.n → ∃ A, fromSecretExponent (OnCurve.ops (OnCurve.crvOfRow row)) d = .ok A ∧
+        OnCurve.Valid C A ∧ OnCurve.den C A = d • C.G) := by
+  obtain ⟨C, M, hn⟩ := OnCurve.matchesRec_of_row row hnp hcard (OnCurve.rowCheck_named row hrow)
+  exact ⟨C, hn, fun d e k hk => sign_eq_standard_on_curve _ C M.toMatches d e k hk,
+    fun d hd => (pubkey_eq_dG_on_curve _ C M.toMatches d).1 hd⟩
+
+end Named
 
 end C03
